@@ -7,7 +7,7 @@ set -u
 HERE="$(cd "$(dirname "$0")/.." && pwd)"
 TIER=$1; A=$2; B=$3; shift 3
 PROPS="${*:-C01 C02 C03 C04 C05 C06 C07 C08 C09 C10 C11 C12 C13 C14 C15 C16 C17 C18 C19 C20}"
-export NUNSIM_VERIF_DIR=$HERE
+export NUNSIM_VERIF_DIR=$HERE CARGO_TARGET_DIR=$HERE/sim/target
 cd $HERE || exit 2
 ./check --build || exit 2
 mkdir -p $HERE/sweep
